@@ -76,6 +76,10 @@ class Report:
         """A rule that matches fewer instances than were confirmed by hand is
         not believed: analysis error, never a silent pass."""
         self.counts["%s:%s" % (rule, what)] = n
+        if n < minimum and any((not o["ok"]) and o["rule"].startswith(rule) for o in self.obs):
+            # the rule already reports what is wrong with the construct it could not match:
+            # a finding, not a vacuous pass
+            return
         if n < minimum:
             raise AnalysisError("%s: only %d %s found, confirmed floor is %d "
                                 "(anchor moved or rule no longer matches)"
